@@ -3,6 +3,7 @@
 The residue table is obtained by abstract interpretation of NumberSuffix::correct_suffix_for from
 the point where the u64 is produced: the value is represented by its residue class mod 100 and
 the MIR decision structure is followed for each of the 100 classes."""
+import json
 import re
 
 from .. import facts
@@ -24,6 +25,8 @@ def expected(r):
 def run(ck, tier):
     ck.rule("R-C17-table", "abstract interpretation of NumberSuffix::correct_suffix_for over the 100 residue classes mod 100 (exact for `% k` with k | 100, comparisons and range matches on residues): the extracted table equals the English rule (11,12,13 -> th; else last digit 1/2/3 -> st/nd/rd; else th); negative, fractional and > u64::MAX inputs return None before the cast")
     ck.rule("R-C17-boundary", "digits directly followed by suffix letters reach the number lexer: a lexer-table entry that is tried before lex_number and matches a fixed-length shape ending in a letter must look at the character after its match (sibling entries of that kind do); otherwise `<digits>s` + letters is split inside the word and the ordinal is never seen as number + suffix")
+    ck.rule("R-C17-whole", "the recognised suffix is the whole word: NumberSuffix::from_chars returns Some only for a slice of exactly two characters (prover: on every Some return the length equals 2), because the rule's span is the last two characters of the merged token and its suggestion replaces exactly them")
+    ck.rule("R-C17-untouched", "the suffix word reaches condense_number_suffixes as the lexer produced it: no Document pass that runs before it in Document::parse matches the bare words st / nd / rd / th (any letter case) as part of a longer stretch to merge (string constants of the pass, its closures, its pattern constructors and thread-local pattern statics)")
     ck.rule("R-C17-flow", "CorrectNumberSuffix::lint emits a lint iff the token's suffix differs from correct_suffix_for(value); its span is Span::new_with_len(tok.span.end, 2).pulled_by(2) = [end-2, end); the suggestion is ReplaceWith(correct.to_chars()) of the same value; from_chars/to_chars agree on the four suffixes in every letter case; condense_number_suffixes merges exactly two tokens")
     ck.not_decided += ["exactness of the f64 path for n < 2^53 (IEEE arithmetic and str::parse, assumed)", "that the lexer produces the right number token"]
     ck.assumptions += ["`as u64` of a non-negative integral f64 below 2^53 is exact"]
@@ -35,6 +38,10 @@ def run(ck, tier):
 
 
     _boundary(ck, p, byk)
+
+    _whole(ck, p, byk)
+
+    _untouched(ck, p, byk)
 
 def _table(ck, p, byk):
     rule = "R-C17-table"
@@ -384,3 +391,102 @@ def _boundary(ck, p, byk):
             ck.proved(rule, key, g.span, "fixed %d-character shape; ends on a letter: %s; looks at the following character: %s" % (n, (n - 1) in letters, looks_after))
         else:
             ck.proved(rule, key, g.span, "not a fixed-length shape (token length is computed: %s)" % (sorted(map(str, rets)) or "none"))
+
+
+def _whole(ck, p, byk):
+    from ..prover import Ctx, Lin, analyze, entails, counter_model, V_slice
+    rule = "R-C17-whole"
+    fs = byk.get("NumberSuffix::from_chars")
+    if not ck.anchor(rule, "NumberSuffix::from_chars", fs):
+        return
+    f = fs[0]
+    ck.saw(f)
+    cx = Ctx(p, {})
+    L = Lin.sym(cx.fresh("len(chars)"))
+    cx.lens = [L]
+    sub = analyze(cx, f, [V_slice(L)], [L])
+    somes = 0
+    for st, v in sub.rets:
+        if v[0] == "opt":
+            if v[3] == [] or v[3] == ():      # cannot be None here / is Some on this path
+                pass
+            # paths on which the result may be Some: the "some" facts are satisfiable
+            facts_some = list(st.facts) + list(v[2])
+            from ..prover import satisfiable
+            if not satisfiable(facts_some):
+                continue
+            somes += 1
+            goal = [L.plus(-2), Lin.konst(2).sub(L)]
+            if not all(entails(facts_some, g) for g in goal):
+                cm = None
+                for g in goal:
+                    if not entails(facts_some, g):
+                        cm = counter_model(facts_some, g)
+                        break
+                ck.refuted(rule, "NumberSuffix::from_chars", f.span, "from_chars can return Some for a slice that is not exactly two characters long (%s): a word that merely begins with st/nd/rd/th is merged into the number (`3things`), the lint then covers the last two characters of that word and the suggestion rewrites them" % cx.show_model(cm))
+                return
+        else:
+            ck.undecided(rule, "NumberSuffix::from_chars", f.span, "a return value is not an Option the prover tracks")
+            return
+    if somes == 0:
+        ck.undecided(rule, "NumberSuffix::from_chars", f.span, "no path returning Some was found")
+    else:
+        ck.proved(rule, "NumberSuffix::from_chars", f.span, "on all %d abstract paths that can return Some the slice length is exactly 2" % somes)
+
+
+def _str_consts(obj, out):
+    if isinstance(obj, dict):
+        c = obj.get("const") if "const" in obj else None
+        if isinstance(c, str):
+            m = re.match(r'^"(.*)"$', c, re.S)
+            if m:
+                out.add(m.group(1))
+        for v in obj.values():
+            _str_consts(v, out)
+    elif isinstance(obj, list):
+        for v in obj:
+            _str_consts(v, out)
+
+
+def _untouched(ck, p, byk):
+    rule = "R-C17-untouched"
+    fs = byk.get("Document::parse")
+    if not ck.anchor(rule, "Document::parse", fs):
+        return
+    f = fs[0]
+    cfg = Cfg(f)
+    cns = [(bi, t) for bi, t in f.calls() if inst_of(t).endswith("document::{impl}::condense_number_suffixes")]
+    if len(cns) != 1:
+        ck.refuted(rule, "anchor-missing:condense_number_suffixes", f.span, "expected one call of condense_number_suffixes in Document::parse, found %d" % len(cns))
+        return
+    nb = cns[0][0]
+    doc = "harper_core::document::"
+    from .. import callgraph
+    cg = callgraph.CallGraph(p.snap)
+    blocked = [q for q in cg.funcs if q.startswith(doc) and (q.endswith("::parse") or "::new" in q.split(doc)[1])]
+    offenders = []
+    n_pass = 0
+    for bi, t in f.calls():
+        g = p.fns.get(t["f"].get("inst") or "")
+        if g is None or not g.name.startswith(doc) or not cfg.dominates(bi, nb) or bi == nb:
+            continue
+        n_pass += 1
+        # the pass and everything of the document module it reaches (closures, pattern constructors, the
+        # thread-local pattern statics and their initialisers): whole-program call graph, which has edges
+        # out of promoted constants, statics and consts
+        par = cg.reach([g.name], blocked=blocked)
+        seen = {q for q in par if q.startswith(doc)}
+        consts = set()
+        for h in p.fns.values():
+            base = re.sub(r"::promoted\[\d+\]$", "", h.name)
+            if base in seen:
+                _str_consts(h.d.get("blocks", []), consts)
+        hit = sorted(c for c in consts if c.lower() in ("st", "nd", "rd", "th"))
+        if hit:
+            offenders.append((last(g.name), hit, t["ln"]))
+    ck.floor(rule, "Document passes that run before condense_number_suffixes", n_pass, 4)
+    if offenders:
+        nm, hit, ln = offenders[0]
+        ck.refuted(rule, "Document::parse:before-number-suffixes", f.loc(ln), "%s runs before condense_number_suffixes and matches the bare word(s) %s: an ordinal like `2st.` loses its suffix word to that pass (merged with its neighbour), so the number-suffix rule never sees it or sees it with the wrong extent" % (nm, hit))
+    else:
+        ck.proved(rule, "Document::parse:before-number-suffixes", f.span, "%d passes run before condense_number_suffixes; none names st / nd / rd / th among its string constants" % n_pass)
